@@ -718,7 +718,7 @@ def p_mp_createClass(p):
                                     embedded_inst.value.lower() != ccname:
                                 dep_classnames.append(embedded_inst.value)
                     for cln in dep_classnames:
-                        if cln in p.parser.classnames[ns]:
+                        if cln in p.parser.classnames.setdefault(ns, []):
                             continue
                         try:
                             # Don't limit it with LocalOnly=True,
